@@ -642,6 +642,16 @@ func TestCheck(t *testing.T) {
 	r := mc.New(t, "C06")
 	defer r.Finish()
 	if r.Replay != nil {
+		var probe struct {
+			Family string `json:"family"`
+		}
+		r.DecodeReplay(&probe)
+		if probe.Family == "starttls-after-status" {
+			var tc TlsCase
+			r.DecodeReplay(&tc)
+			evalTls(t, r, tc)
+			return
+		}
 		var c Case
 		r.DecodeReplay(&c)
 		g := gen{c.Role, c.Input, c.Origin}
@@ -667,5 +677,15 @@ func TestCheck(t *testing.T) {
 		}
 		r.Progress(idx + 1)
 	}
+	// a server that can do StartTLS: error statuses must stay refusals whatever the peer does next
+	for i, tc := range tlsCases() {
+		idx := len(all) + 100 + i
+		if !r.Mine(idx) {
+			continue
+		}
+		tc := tc
+		r.Guard(idx, 60*time.Second, "hang|server|starttls", tc.String(), tc, func() { evalTls(t, r, tc) })
+	}
 	r.Note("inputs_total", len(all))
+	r.Note("starttls_after_status_cases", len(tlsCases()))
 }
